@@ -12,7 +12,7 @@ PROPS = {
              "for families 1,3; run/word/block edges +-1 and EVERY rank for family 2; plus the out-of-range set A(.)) and must equal the vectors built by "
              "FromIterator<bool>, copy_bit_vec and From<SparseVector/RLVector> in every answer; raw vectors reached by push/pop histories (pop_bit and pop_int routes that leave stale words behind the length) "
              "must give the same answers as well, and so must vectors whose support structures were enabled in other orders (enable_rank, enable_pred_succ, enable_select_zero; enable_select_zero, enable_pred_succ, enable_select, enable_rank). A case is non-trivial when it has both set and unset bits; distinct = distinct bit sequences (hashed case keys).",
-        bounds={"quick": "N=12, d=2 (462 words), sweep 984 cases", "thorough": "N=18, d=3 (9723 words) + depth 4 over 8 letters (4096 words), sweep 1116 cases"},
+        bounds={"quick": "N=14, d=2 (462 words), sweep 984 cases", "thorough": "N=18, d=3 (9723 words) + depth 4 over 8 letters (4096 words), sweep 1116 cases"},
         require_counters={"quick": {"vectors_with_long_superblock(ones)": 1, "vectors_with_long_superblock(zeros)": 1, "vectors_with_long_and_short(ones)": 1},
                           "thorough": {"vectors_with_long_superblock(ones)": 1, "vectors_with_long_superblock(zeros)": 1, "vectors_with_several_long(ones)": 1}},
         assumptions=[HOOK_ASSUMPTION, MODEL_ASSUMPTION, "bitvectors longer than ~330 000 bits are outside the explored space"],
@@ -26,7 +26,7 @@ NOT_APPLICABLE = {}
 MANIFEST_TEXT = {
     "C01": dict(engine="E-input", design_ref="DESIGN.md §4 C01",
         technique="bounded exhaustive input enumeration on the real code (small-scope + regime-alphabet words) against a reference model",
-        level_text="Every bit sequence up to length 12/17 and every word up to depth 2/3(+4) over a regime alphabet that reaches long and short select superblocks for ones and zeros, "
+        level_text="Every bit sequence up to length 14/18 and every word up to depth 2/3(+4) over a regime alphabet that reaches long and short select superblocks for ones and zeros, "
                    "multi-block rank samples and partial last words; every query argument in the stated sets; three build configurations (portable select, BMI2, overflow checks on). "
                    "A coverage statement over that space, not a proof for all inputs.",
         level_note="Trusts the reference model (self-checked against brute force) and rustc; vectors beyond ~330k bits are not explored."),
@@ -55,7 +55,7 @@ PROPS["C02"] = dict(
          "evenly spread, straddling every bucket boundary 2^w*k-1 / 2^w*k), plus universes usize::MAX, usize::MAX-1, 2^63, 2^63+1 with 1-3 positions; (c) run-structured sets: every word up to depth d over "
          "28 (gap, run) letters (the select_zero binary search needs > 16 ones); (d) empty vectors up to 2^20 / 2^26 and full vectors up to 4096; (e) large clustered sets (tens of thousands of ones in few buckets, so that the high part has long select superblocks). "
          "Built with try_set; set / extend / copy_bit_vec / From<BitVector> routes must answer every query identically. All ten operations at every position and rank (a, c, small d) or at member/bucket edges +-1 and A(.) (b, large d). Non-trivial = has set and unset bits; distinct by hashed case key.",
-    bounds={"quick": "N=10, d=3", "thorough": "N=15, d=4"},
+    bounds={"quick": "N=12, d=3", "thorough": "N=15, d=4"},
     require_counters={"quick": {"cases_entering_select_zero_binary_search": 100}, "thorough": {"cases_entering_select_zero_binary_search": 100}},
     # Non-vacuity on the regime actually reached, not on the library's current parameter rule: any admissible rule that
     # follows log2(n/m) reaches (nearly) every low width with the width-directed family.
@@ -64,7 +64,7 @@ PROPS["C02"] = dict(
 )
 MANIFEST_TEXT["C02"] = dict(engine="E-input", design_ref="DESIGN.md §4 C02",
     technique="bounded exhaustive input enumeration on the real code (all subsets of small universes, every low width 1..63, run-structured sets) against a reference model",
-    level_text="Every subset of every universe up to 10/15 elements, every low-part width the parameter rule can choose (all 63 observed in the written files), positions at the first and last element of universes up to usize::MAX, "
+    level_text="Every subset of every universe up to 12/15 elements, every low-part width the parameter rule can choose (all 63 observed in the written files), positions at the first and last element of universes up to usize::MAX, "
                "and every run-structured word up to depth 3/4 so that the select_zero binary search is entered; all ten operations at every argument in the stated sets.",
     level_note="Trusts the reference model; dense vectors with millions of ones and empty vectors beyond 2^26 are not explored.")
 
@@ -75,7 +75,7 @@ PROPS["C03"] = dict(
          "followed by 2..20 more blocks, k up to 600 with long tails; (4) lengths at the documented maximum: usize::MAX - slack for slack 0..40 with 1..20 blocks and a final run or trailing zeros up to the very end. "
          "Built run by run; per-bit, split-run, set_len-before-every-run and copy_bit_vec routes must answer identically. All ten operations at run edges, block-sample edges (read from the "
          "file by the independent codec) +-1, a uniform grid over the length, the midpoints of gaps and runs, and A(.); run_iter must yield exactly the maximal runs with running offset/rank/rank_zero. Non-trivial = at least one run; distinct by hashed case key.",
-    bounds={"quick": "N=10; <=2 runs over 8 magnitudes x 3 tails; 450 block shapes", "thorough": "N=13; <=2 runs over 19 magnitudes and <=3 runs over 10 magnitudes x 3 tails; 1500 block shapes"},
+    bounds={"quick": "N=12; <=2 runs over 8 magnitudes x 3 tails; 450 block shapes", "thorough": "N=13; <=2 runs over 19 magnitudes and <=3 runs over 10 magnitudes x 3 tails; 1500 block shapes"},
     require_counters={"quick": {"vectors_with_9_or_more_blocks": 10, "vectors_longer_than_2^63": 100}, "thorough": {"vectors_with_9_or_more_blocks": 10, "vectors_longer_than_2^63": 100}},
     assumptions=[HOOK_ASSUMPTION, MODEL_ASSUMPTION, "more than ~1300 runs per vector, and run lists longer than 3 with 2^60-scale magnitudes, are not explored"],
 )
@@ -109,7 +109,7 @@ PROPS["C06"] = dict(
          "BitVector / SparseVector / RLVector of <= N bits. For each x: bytes written == 8*size_in_elements == size_in_bytes; load consumes exactly those bytes, equals x, re-serializes identically and answers the query sets of C01-C04; "
          "also through 1/3/7/8/9-byte short-read readers and 1/3/7-byte short-write sinks; size_by_params for Raw/IntVector over boundary (capacity, width) sets. Every ordered pair (thorough: every triple over 24 values) "
          "written back to back loads in sequence with the reader ending exactly at the end. Non-trivial = more than one element; distinct by hashed descriptor / descriptor tuple.",
-    bounds={"quick": "150-value catalogue, N=8, 22 500 pairs", "thorough": "extended catalogue (all widths, all byte lengths, multi-superblock vectors), N=18, all pairs, 46 656 triples"},
+    bounds={"quick": "158-value catalogue, N=10, 24 964 pairs", "thorough": "extended catalogue (all widths, all byte lengths, multi-superblock vectors), N=18, all pairs, 46 656 triples"},
     assumptions=[HOOK_ASSUMPTION, MODEL_ASSUMPTION],
 )
 MANIFEST_TEXT["C06"] = dict(engine="E-input", design_ref="DESIGN.md §4 C06",
@@ -120,10 +120,10 @@ MANIFEST_TEXT["C06"] = dict(engine="E-input", design_ref="DESIGN.md §4 C06",
 PROPS["C17"] = dict(
     driver="c17", builds=["rel", "native", "dbg"], level="exploration",
     rule="E-input: write_int/read_int at every (offset 0..=191, width 1..=64) on a 4-word array x value alphabet x background alphabet (whole array compared bit by bit with a reference; single-word and straddling branch); "
-         "bits::select for EVERY rank < popcount over every word with <= 3 (thorough 5) set bits, every byte value at every byte position over four background fills, their complements, shifted runs and the seed pattern "
+         "bits::select for EVERY rank < popcount over every word with <= 4 (thorough 5) set bits, every byte value at every byte position over four background fills, their complements, shifted runs and the seed pattern "
          "(covers every entry of the in-byte table and every prefix-sum case); low_set/high_set (+unchecked) for all n in 0..=64; bit_len, reverse_low (all widths), rounding helpers, split/bit_offset, div_round_up over boundary sets "
          "inside their documented domains, compared with u128 arithmetic. Run in builds without BMI2 (portable table), with BMI2 (PDEP) and with overflow checks. Non-trivial: non-zero background or straddling field; every (word, rank) pair.",
-    bounds={"quick": "8 values x 4 backgrounds; 94 449 select words", "thorough": "136 values x 6 backgrounds; 16 612 202 select words (every word with <= 5 set bits), 531 588 815 (word, rank) pairs"},
+    bounds={"quick": "8 values x 4 backgrounds; 1 364 078 select words (every word with <= 4 set bits)", "thorough": "136 values x 6 backgrounds; 16 612 202 select words (every word with <= 5 set bits), 531 588 815 (word, rank) pairs"},
     assumptions=[HOOK_ASSUMPTION, "select on words outside the structured families is not explored (the function is branch-free; the families cover every table entry and byte position)"],
 )
 MANIFEST_TEXT["C17"] = dict(engine="E-input", design_ref="DESIGN.md §4 C17",
@@ -138,12 +138,12 @@ PROPS["C16"] = dict(
          "the largest that fits, one more than fits, usize::MAX}, set_len below/at/above the length. After every call: accepted/refused exactly as the reference says; a refused call leaves every observable (len, next_index, counts, fullness, and the vector a clone converts to) unchanged; "
          "len/next_index/is_full/is_empty/count_ones/count_zeros exact; conversion of a clone succeeds iff allowed and yields a vector that answers get/rank/select/predecessor/successor at every index like the accepted positions / merged runs (also after completing a clone with the smallest admissible indices). "
          "States deduplicated on the builder's Debug rendering; distinct = distinct renderings per BFS.",
-    bounds={"quick": "depth 4", "thorough": "depth 7"},
+    bounds={"quick": "depth 5", "thorough": "depth 7"},
     assumptions=[HOOK_ASSUMPTION, "after an extend that panics on an invalid element, how many of the valid elements before it were accepted is not specified; any prefix is admitted"],
 )
 MANIFEST_TEXT["C16"] = dict(engine="E-hist", design_ref="DESIGN.md §4 C16",
     technique="explicit-state breadth-first exploration of builder call sequences on the real builders, reference model of accepted calls, side-effect oracle on the Debug rendering",
-    level_text="All sequences of valid and invalid calls up to depth 4/7 over 60 sparse parameter sets and the run-length builder; every transition executed on the real builder; every reached state converted and compared with the accepted positions.",
+    level_text="All sequences of valid and invalid calls up to depth 5/7 over 60 sparse parameter sets and the run-length builder; every transition executed on the real builder; every reached state converted and compared with the accepted positions.",
     level_note="Histories longer than the bound and parameters outside the alphabet are not explored.")
 
 PROPS["C14"] = dict(
@@ -219,12 +219,12 @@ PROPS["C09"] = dict(
          "select_zero_iter, predecessor, successor; Iterator::nth / nth_back(k) for k in A(remaining) on every iterator kind after 0, 1 and 2 consumed items from the front and after 1 and 2 items consumed from the back (result, exact size hint afterwards, the next items); wavelet matrices over small "
          "alphabets with A(.) x (present, absent, outside-the-alphabet values incl. u64::MAX) in every position of rank/select/select_iter/inverse_select/predecessor/successor/contains, and WMCore map_down/map_down_with/map_up_with over all "
          "(index, value) and map_down_with_two_positions over all (index, index, value) - the pair variant must answer like two single queries; constructors with widths {0,1,13,64,65,2^20,MAX}, SparseBuilder::new with ones > universe, RLBuilder::try_set with start+len overflowing. No call may panic. Distinct by hashed structure.",
-    bounds={"quick": "N=6; WM scopes (1,6) (2,4) (3,3) (4,2)", "thorough": "N=16; WM scopes (1,10) (2,6) (3,4) (4,3)"},
+    bounds={"quick": "N=8; WM scopes (1,6) (2,4) (3,3) (4,2)", "thorough": "N=16; WM scopes (1,10) (2,6) (3,4) (4,3)"},
     assumptions=[HOOK_ASSUMPTION, MODEL_ASSUMPTION, "documented 'may panic' cases (get(i >= len), with_len whose len*width overflows) are not checked; WMCore with values >= 2^width is only required not to panic"],
 )
 MANIFEST_TEXT["C09"] = dict(engine="E-input", design_ref="DESIGN.md §4 C09",
     technique="bounded exhaustive input enumeration on the real code with the extreme-argument set A(.) in every argument position, against reference models, in three build configurations",
-    level_text="All structures up to 6/16 bits plus multi-block representatives x every argument position x A(.), including Iterator::nth/nth_back beyond the remainder and the core mapping for any (index, value); decided with overflow checks on (no panic) and off (same answers).",
+    level_text="All structures up to 8/16 bits plus multi-block representatives x every argument position x A(.), including Iterator::nth/nth_back beyond the remainder and the core mapping for any (index, value); decided with overflow checks on (no panic) and off (same answers).",
     level_note="Trusts the reference models; larger structures are represented by 9 instances only.")
 
 PROPS["C10"] = dict(
@@ -248,7 +248,7 @@ PROPS["C15"] = dict(
          "for universes 64..2^20 (the low width the parameter rule picks) and for universes 2^63, usize::MAX-1, usize::MAX with values at both ends; multisets with 100 000 (thorough 300 000) copies of one value before / after / between other values and behind thousands of empty buckets (long select superblocks in the upper part), queried at the structural edges; SparseVector::try_from_iter over EVERY sequence (sorted or not) of length <= L over 0..A. Checked: len, count_ones, is_multiset, select / select_iter at every rank and A(.), "
          "get, rank, successor (first occurrence) and predecessor (last occurrence) as full iterators at every position and A(.), one_iter and the bit iterator forward, reversed and at every forward/backward split point; try_from_iter accepts exactly "
          "the non-decreasing sequences, sizes the universe to last+1 and equals the multiset builder's vector. Zero-side queries are not checked (documented as not meaningful for multisets). Non-trivial = has duplicates or is a try_from_iter sequence.",
-    bounds={"quick": "U=6, K=7; L=5 over 0..6 (9 331 sequences)", "thorough": "U=9, K=10; L=7 over 0..8"},
+    bounds={"quick": "U=7, K=8; L=5 over 0..6 (9 331 sequences)", "thorough": "U=9, K=10; L=7 over 0..8"},
     require_counters={"quick": {"overfull_cases": 10, "cases_with_duplicates": 100}, "thorough": {"overfull_cases": 10, "cases_with_duplicates": 100}},
     assumptions=[HOOK_ASSUMPTION, "reference = sorted Vec<usize> with linear scans"],
 )
@@ -264,12 +264,12 @@ PROPS["C11"] = dict(
          "the target type's own builder produces from the same bits, and serialize to identical bytes. Builder decompositions: every run list of <= 3 runs of length <= R (gaps 0/1/2) x EVERY composition of each run into adjacent try_set pieces "
          "(down to bit at a time) x {no set_len, set_len(current length) before every run, set_len(next start) before every run, set_len(current length) before every PIECE, two refused try_set calls (an overflowing run behind a gap, a run before the current length) before every piece} x tail {0, 2}: the RLVector must be the canonical one. "
          "Huge universes: SparseVector <-> RLVector chains (From and copy_bit_vec) over lengths up to usize::MAX with runs at 2^60-scale positions and runs ending exactly at usize::MAX. Non-trivial = has set and unset bits / any decomposition.",
-    bounds={"quick": "N=10, R=4", "thorough": "N=18, R=6"},
+    bounds={"quick": "N=12, R=5", "thorough": "N=18, R=6"},
     assumptions=[HOOK_ASSUMPTION, MODEL_ASSUMPTION, "BitVector construction routes from a raw vector / bool iterator are compared in C01"],
 )
 MANIFEST_TEXT["C11"] = dict(engine="E-input", design_ref="DESIGN.md §4 C11",
     technique="bounded exhaustive enumeration of bit sequences x all conversion chains up to length 3 x all builder call decompositions, with a canonical-form oracle (== and identical bytes)",
-    level_text="All 159 conversion chains on every bit sequence up to 10/18 bits and on multi-block representatives; every decomposition of small run lists into builder calls incl. interleaved set_len.",
+    level_text="All 159 conversion chains on every bit sequence up to 12/18 bits and on multi-block representatives; every decomposition of small run lists into builder calls incl. interleaved set_len.",
     level_note="Chains longer than 3 and larger inputs are not explored.")
 
 PROPS["C13"] = dict(
@@ -296,13 +296,13 @@ PROPS["C19"] = dict(
          "reaches the full subset equals the fully enabled original. Composites: SparseVector files at every admissible low width and WaveletMatrix / WMCore files are written by the independent codec with EVERY subset of the support structures in the embedded "
          "bitvectors (none, each one, all), and must load - also wrapped as Option<...> in front of a sentinel - and answer all queries; with no supports or all supports they must equal the built value. skip_option over [optional, sentinel] for every catalogue value through readers of chunk size 1/3/7/8/9/4095/unbounded must leave the reader exactly at the sentinel; "
          "absent_option writes absent_option_size() elements. Distinct = states + files + (value, chunk) pairs.",
-    bounds={"quick": "N=7 (255+7 bitvectors x 16 states), sparse files for all sets <= 6 bits x all widths, WM scopes (1,6) (2,4) (3,3) (4,2)", "thorough": "N=16, sparse <= 14 bits, WM scopes (1,8) (2,5) (3,4) (4,3), extended catalogue"},
+    bounds={"quick": "N=9 (1023+7 bitvectors x 16 states), sparse files for all sets <= 8 bits x all widths, WM scopes (1,6) (2,4) (3,3) (4,2)", "thorough": "N=16, sparse <= 14 bits, WM scopes (1,8) (2,5) (3,4) (4,3), extended catalogue"},
     require_counters={"quick": {"sparse_files_at_the_library_width": 10}, "thorough": {"sparse_files_at_the_library_width": 10}},
     assumptions=[HOOK_ASSUMPTION, MODEL_ASSUMPTION, "the independent codec in harness/vcore/src/spec.rs (written from SERIALIZATION.md) produces the support-free files"],
 )
 MANIFEST_TEXT["C19"] = dict(engine="E-hist", design_ref="DESIGN.md §4 C19",
     technique="explicit-state exploration to a fixpoint of the (support subset, built|loaded) graph on the real bitvector; support-free composite files produced by an independent codec; skip_option under short reads",
-    level_text="All 16 states and 80 transitions per bitvector for every bitvector up to 7/16 bits and multi-regime representatives; support-free sparse / wavelet-matrix files at every admissible parameter; skip_option for every catalogue value x 7 reader chunk sizes.",
+    level_text="All 16 states and 80 transitions per bitvector for every bitvector up to 9/16 bits and multi-regime representatives; support-free sparse / wavelet-matrix files at every admissible parameter; skip_option for every catalogue value x 7 reader chunk sizes.",
     level_note="The state graph is finite and explored completely; the input set is bounded as stated.")
 
 PROPS["C07"] = dict(
@@ -313,7 +313,7 @@ PROPS["C07"] = dict(
          "stored ones = actual, exactly one bucket per universe slice, w >= 1, 4-bit units with whole runs per 64-unit block, zero padding only in closed blocks and none in the final block, maximal runs, samples per block at minimal width, data width 4, "
          "wavelet-matrix width = bit_len(max), first[v] = first position or len, minimal width of first). Direction 2: files encoded by the codec with every admissible writer choice - all support structures absent, EVERY low width 1..bit_len(n)+1 for "
          "sparse vectors, every sample width from minimal to 64 for run-length vectors - and every subset of support structures in embedded bitvectors - must load and answer the full query sets (and equal the built value where the document determines the content). Greedy block packing is counted, not required. Distinct by hashed case.",
-    bounds={"quick": "N=10 (direction 1), 8 (direction 2); WM scopes (1,8) (2,5) (3,3) (4,2)", "thorough": "N=20 / 16; WM scopes (1,9) (2,6) (3,4) (4,3); all 64 sample widths for every vector"},
+    bounds={"quick": "N=12 (direction 1), 10 (direction 2); WM scopes (1,8) (2,5) (3,3) (4,2)", "thorough": "N=20 / 16; WM scopes (1,9) (2,6) (3,4) (4,3); all 64 sample widths for every vector"},
     require_counters={"quick": {"direction1_library_written_files": 1000, "direction2_document_written_files": 1000}, "thorough": {"direction1_library_written_files": 1000, "direction2_document_written_files": 1000}},
     assumptions=[HOOK_ASSUMPTION, MODEL_ASSUMPTION, "my reading of SERIALIZATION.md as implemented in spec.rs; rank/select support structures are implementation-dependent per the document and only checked for whole elements"],
 )
